@@ -24,57 +24,78 @@ Proof. intros. unfold int_of. rewrite (eval_agree e _ _ H); auto. Qed.
 Lemma remove_id_in' : forall x i l, In x l -> x <> i -> In x (remove_id i l).
 Proof. exact remove_id_in. Qed.
 
-Definition coincide (p : pt) : Prop :=
-  wf p -> forall r1 r2 drop, agree (pnames p) r1 r2 ->
-    map ob_stat (obs p r1 drop) = map ob_stat (obs p r2 drop) /\ plays p r1 drop = plays p r2 drop.
-
-Lemma coincidence : forall p, coincide p.
+Lemma flat_map_abs_ext : forall X (f g : X -> list ob) l,
+  (forall x, In x l -> map ob_abs (f x) = map ob_abs (g x)) ->
+  map ob_abs (flat_map f l) = map ob_abs (flat_map g l).
 Proof.
-  induction p using pt_ind'; unfold coincide; intros Hwf r1 r2 drop Hag.
-  - destruct (atomic_coincidence _ Hwf r1 r2 drop Hag) as [H1 [H2 H3]].
+  induction l as [|x l IH]; intros H; cbn; auto. rewrite !map_app, (H x (or_introl eq_refl)). f_equal.
+  apply IH. intros; apply H; right; auto.
+Qed.
+
+Definition coincide_a (p : pt) : Prop :=
+  wf p -> forall r1 r2 drop, agree (pnames p) r1 r2 ->
+    map ob_abs (obs p r1 drop) = map ob_abs (obs p r2 drop) /\ plays p r1 drop = plays p r2 drop.
+
+Lemma coincidence_a : forall p, coincide_a p.
+Proof.
+  induction p using pt_ind'; unfold coincide_a; intros Hwf r1 r2 drop Hag.
+  - destruct (atomic_coincidence_a _ Hwf r1 r2 drop Hag) as [H1 [H2 H3]].
     cbn [obs plays]. split; auto. rewrite !map_app, H1, H2. f_equal. destruct (wave _ r2 drop); auto.
-  - destruct (atomic_coincidence _ Hwf r1 r2 drop Hag) as [H1 [H2 H3]].
+  - destruct (atomic_coincidence_a _ Hwf r1 r2 drop Hag) as [H1 [H2 H3]].
     cbn [obs plays]. split; auto. rewrite !map_app, H1, H2. f_equal. destruct (wave _ r2 drop); auto.
   - cbn [pnames] in Hag. apply agree_app in Hag as [Hi Ho]. cbn [wf] in Hwf.
     destruct (IHp Hwf r1 r2 drop Hi) as [H1 H2]. cbn [obs plays]. split; auto.
-    rewrite !map_app, H1. f_equal. destruct drop; auto. apply obs_r_agree; auto.
+    rewrite !map_app, H1. f_equal. apply obs_r_agree_a. eapply agree_sub; [|exact Ho]. apply kept_vars.
+  - cbn [pnames] in Hag. apply agree_app in Hag as [Hi Ho]. cbn [wf] in Hwf.
+    destruct (IHp Hwf r1 r2 drop Hi) as [H1 H2]. cbn [obs plays]. split; auto.
+    rewrite !map_app, H1. f_equal. apply obs_r_agree_a.
+    apply agree_app in Ho as [Ha Hc]. unfold vars_l. rewrite flat_map_app. apply agree_app. split; auto.
+    eapply agree_sub; [|exact Hc]. apply kept_vars.
   - cbn [pnames] in Hag. apply agree_app in Hag as [Hc Hag]. apply agree_app in Hag as [Hm Hs].
     cbn [wf] in Hwf. apply wf_subs in Hwf. rewrite Forall_forall in H, Hwf.
-    assert (Hq : forall q, In q subs -> map ob_stat (obs q r1 drop) = map ob_stat (obs q r2 drop)
+    assert (Hq : forall q, In q subs -> map ob_abs (obs q r1 drop) = map ob_abs (obs q r2 drop)
                                        /\ plays q r1 drop = plays q r2 drop).
     { intros q Hq. apply H; auto. eapply agree_sub; [|exact Hs]. apply flat_map_in_sub; auto. }
     cbn [obs plays]. split.
-    + rewrite !map_app, (obs_c_agree cs _ _ Hc), (obs_m_agree ms _ _ Hm). do 2 f_equal.
-      apply flat_map_stat_ext. intros q Hin. apply Hq; auto.
+    + rewrite !map_app, (obs_c_agree_a cs _ _ Hc), (obs_m_agree_a ms _ _ Hm). do 2 f_equal.
+      apply flat_map_abs_ext. intros q Hin. apply Hq; auto.
     + apply existsb_ext_in. intros q Hin. apply Hq; auto.
   - cbn [pnames] in Hag. apply agree_app in Hag as [Hb Hag]. apply agree_app in Hag as [Hc Hag].
     apply agree_app in Hag as [Hm Hn]. cbn [wf] in Hwf.
     destruct (IHp Hwf r1 r2 drop Hb) as [H1 H2]. cbn [obs plays].
     rewrite (int_of_agree count _ _ Hn). split.
-    + rewrite !map_app, (obs_c_agree cs _ _ Hc). f_equal. cbn [map ob_stat]. rewrite (eval_agree count _ _ Hn).
+    + rewrite !map_app, (obs_c_agree_a cs _ _ Hc). f_equal. cbn [map ob_abs]. rewrite (eval_agree count _ _ Hn).
       f_equal. destruct (int_of r2 count); auto. destruct (0 <? z); auto.
-      rewrite !map_app, (obs_m_agree ms _ _ Hm), H1; auto.
+      rewrite !map_app, (obs_m_agree_a ms _ _ Hm), H1; auto.
     + destruct (int_of r2 count); auto. destruct (0 <? z); auto.
   - cbn [pnames] in Hag. apply agree_app in Hag as [Hb Hag]. apply agree_app in Hag as [Hr Hag].
     apply agree_app in Hag as [Hc Hm]. apply agree_app in Hr as [Ha Hr]. apply agree_app in Hr as [Hb' Hst].
     cbn [wf] in Hwf.
-    assert (Hv : forall v, map ob_stat (obs p (upd r1 i (inject_Z v)) drop)
-                           = map ob_stat (obs p (upd r2 i (inject_Z v)) drop)
+    assert (Hv : forall v, map ob_abs (obs p (upd r1 i (inject_Z v)) drop)
+                           = map ob_abs (obs p (upd r2 i (inject_Z v)) drop)
                            /\ plays p (upd r1 i (inject_Z v)) drop = plays p (upd r2 i (inject_Z v)) drop).
     { intros v. apply IHp; auto. intros x Hx. unfold upd. destruct (N.eqb_spec x i); auto.
       apply Hb. apply remove_id_in; auto. }
     assert (Hrg : range_of r1 a b st = range_of r2 a b st).
     { unfold range_of. rewrite (int_of_agree a _ _ Ha), (int_of_agree b _ _ Hb'), (int_of_agree st _ _ Hst); auto. }
     cbn [obs plays]. rewrite Hrg. split.
-    + rewrite !map_app, (obs_c_agree cs _ _ Hc). f_equal. cbn [map ob_stat].
+    + rewrite !map_app, (obs_c_agree_a cs _ _ Hc). f_equal. cbn [map ob_abs].
       rewrite (eval_agree a _ _ Ha), (eval_agree b _ _ Hb'), (eval_agree st _ _ Hst). do 3 f_equal.
       destruct (range_of r2 a b st); auto.
-      rewrite !map_app, (obs_m_agree ms _ _ Hm). f_equal. apply flat_map_stat_ext. intros v _. apply Hv.
+      rewrite !map_app, (obs_m_agree_a ms _ _ Hm). f_equal. apply flat_map_abs_ext. intros v _. apply Hv.
     + destruct (range_of r2 a b st); auto. apply existsb_ext_in. intros v _. apply Hv.
   - cbn [pnames] in Hag. apply agree_app in Hag as [Hm Hc]. cbn [wf] in Hwf. destruct Hwf as [Hsub Hwf].
     rewrite subset_in in Hsub.
     destruct (IHp Hwf (map_env r1 m) (map_env r2 m) drop (map_env_agree _ _ _ _ Hm Hsub)) as [H1 H2].
-    cbn [obs plays]. split; auto. rewrite !map_app, (obs_c_agree cs _ _ Hc), H1; auto.
+    cbn [obs plays]. split; auto. rewrite !map_app, (obs_c_agree_a cs _ _ Hc), H1; auto.
+Qed.
+
+
+Lemma coincidence : forall p, wf p -> forall r1 r2 drop, agree (pnames p) r1 r2 ->
+    map ob_stat (obs p r1 drop) = map ob_stat (obs p r2 drop) /\ plays p r1 drop = plays p r2 drop.
+Proof.
+  intros p Hwf r1 r2 drop Hag. destruct (coincidence_a p Hwf r1 r2 drop Hag) as [H1 H2].
+  rewrite !map_stat_abs, H1. auto.
 Qed.
 
 Lemma verdict_agree : forall p r1 r2 drop, wf p -> agree (pnames p) r1 r2 -> verdict p r1 drop = verdict p r2 drop.
@@ -134,8 +155,8 @@ Qed.
 
 (* non-vacuity: a tree with a mapping, a loop and constraints that satisfies every hypothesis used above *)
 Definition ex_tree : pt :=
-  Map (For (Seq [Atom KTable [EVar 1%N; EVar 3%N] (EConst 2) [Constr OLt (EVar 3%N) (EConst 5)] [];
-                 Rep (Atom KPoint [EVar 1%N; EVar 1%N] (EConst 1) [Constr OLe (EVar 1%N) (EVar 2%N)] []) (EVar 3%N) [] []]
+  Map (For (Seq [Atom KTable [7%N] [EVar 1%N; EVar 3%N] (EConst 2) [Constr OLt (EVar 3%N) (EConst 5)] [];
+                 Rep (Atom KPoint [7%N] [EVar 1%N; EVar 1%N] (EConst 1) [Constr OLe (EVar 1%N) (EVar 2%N)] []) (EVar 3%N) [] []]
                 [] [])
            3%N (EConst 0) (EVar 2%N) (EConst 1) [] [])
       [(1%N, EAdd (EVar 0%N) (EConst 1))] [Constr OGt (EVar 0%N) (EConst 0)].
@@ -145,7 +166,7 @@ Example ex_uok : uok ex_tree.
 Proof. cbn. tauto. Qed.
 Example ex_declared : forall x, In x (pnames (construct ex_tree)) -> In x (map fst ex_values).
 Proof. intros x H. vm_compute in H. vm_compute. tauto. Qed.
-Example ex_runs : create_program ex_tree ex_values false = Ok true.
+Example ex_runs : create_program ex_tree ex_values [] = Ok true.
 Proof. vm_compute. reflexivity. Qed.
-Example ex_rejects : create_program ex_tree [(0%N, 0%Q); (2%N, 3%Q)] false = Err Violated.
+Example ex_rejects : create_program ex_tree [(0%N, 0%Q); (2%N, 3%Q)] [] = Err Violated.
 Proof. vm_compute. reflexivity. Qed.
